@@ -95,6 +95,9 @@ var triage *os.File
 func (ck *checker) fail(env *qh.Env, q *qm.Q, pc qh.PlanCase, what, format string, a ...any) {
 	msg := fmt.Sprintf(format, a...)
 	class := env.Classify(q)
+	if class == "" {
+		class = qh.ClassifyPanic(msg)
+	}
 	if class == "" && what == "select-extra" &&
 		(strings.Contains(msg, "panic: Sels.Get can't find") || strings.Contains(msg, "panic: ASSERT FAILED")) {
 		class = ClassSelectExtra
@@ -126,7 +129,7 @@ func (ck *checker) effort(q *qm.Q, mode qry.Mode, r qh.Req) qh.Effort {
 			ef = qh.Effort{MinCost: []qh.Knobs{kNone, kFuzz}, Seam: []qh.Knobs{kNone}, Bound: 0}
 		}
 	} else {
-		ef = qh.Effort{MinCost: []qh.Knobs{kNone, kFuzz, kBig, kSkew}, Seam: []qh.Knobs{kNone, kFuzz}, Bound: 2, MaxRuns: 60}
+		ef = qh.Effort{MinCost: []qh.Knobs{kNone, kFuzz, kBig, kSkew}, Seam: []qh.Knobs{kNone, kFuzz}, Bound: 1, MaxRuns: 30}
 	}
 	if qm.Count1(q) {
 		ef.MinCost = []qh.Knobs{kNone, kFuzz}
